@@ -143,7 +143,7 @@ def areaObjection (X : Operand) (ext : Rat) (ar : Rat) : Option String :=
   if areaCert X evs then
     let ex := exactArea X
     if absQ (ar - ex) * 1000000000 ≤ absQ ex + ext * ext then none
-    else some s!"Area()={ratF ar} exact-area-of-the-point-set={ratF ex}"
+    else some s!"Area()={ratF ar} exact-area-of-the-point-set={ratF ex} Area()/exact={if ex = 0 then 0 else ratF (ar / ex)}"
   else none
 
 def showW : WStatus → String
